@@ -94,7 +94,7 @@ package pullapi
 //@   requires s != nil
 
 //@ func (*Server).ServeHTTP
-//@   requires s != nil && r != nil && r.URL != nil && respStatus == 0
+//@   requires s != nil && r != nil && r.URL != nil && w != nil && respStatus == 0
 //@   modifies *
 //@   calls handleDequeue requires [C11:dequeue_only_when_authorized] s.Authorize == nil || (authzCalls == old(authzCalls) + 1 && authzResult && authzReq == r)
 //@   calls handleAck requires [C11:ack_only_when_authorized] s.Authorize == nil || (authzCalls == old(authzCalls) + 1 && authzResult && authzReq == r)
@@ -195,16 +195,16 @@ package pullapi
 //@   ensures len(result) == len(conflicts)
 
 //@ func (*Server).handleAck
-//@   requires s != nil && r != nil && w != nil && respStatus == 0
+//@   requires s != nil && r != nil && w != nil
 //@   modifies *
-//@   ensures [C04:204_only_after_the_store_acked_or_a_remembered_duplicate] respStatus == 204 ==> batchOps == old(batchOps) && ((storeMutations == old(storeMutations) + 1 && lastStoreErr == nil && lastStoreOp == "ack") || storeMutations == old(storeMutations))
-//@   ensures [C04:single_conflict_is_409] !local(isBatch) && storeMutations == old(storeMutations) + 1 && leaseConflict(lastStoreErr) ==> respStatus == 409
-//@   ensures [C04:single_store_error_is_never_a_success] !local(isBatch) && storeMutations == old(storeMutations) + 1 && lastStoreErr != nil ==> respStatus >= 400
+//@   ensures [C04:204_only_after_the_store_acked_or_a_remembered_duplicate] old(respStatus) == 0 && respStatus == 204 ==> batchOps == old(batchOps) && ((storeMutations == old(storeMutations) + 1 && lastStoreErr == nil && lastStoreOp == "ack") || storeMutations == old(storeMutations))
+//@   ensures [C04:single_conflict_is_409] old(respStatus) == 0 && !local(isBatch) && storeMutations == old(storeMutations) + 1 && leaseConflict(lastStoreErr) ==> respStatus == 409
+//@   ensures [C04:single_store_error_is_never_a_success] old(respStatus) == 0 && !local(isBatch) && storeMutations == old(storeMutations) + 1 && lastStoreErr != nil ==> respStatus >= 400
 //@   ensures [C04:always_answers] respStatus != 0
 
 //@ func (*Server).handleExtend
-//@   requires s != nil && r != nil && w != nil && respStatus == 0
+//@   requires s != nil && r != nil && w != nil
 //@   modifies *
-//@   ensures [C04:204_only_after_the_store_extended] respStatus == 204 ==> storeMutations == old(storeMutations) + 1 && lastStoreErr == nil && lastStoreOp == "extend"
-//@   ensures [C04:conflict_is_409] storeMutations == old(storeMutations) + 1 && leaseConflict(lastStoreErr) ==> respStatus == 409
+//@   ensures [C04:204_only_after_the_store_extended] old(respStatus) == 0 && respStatus == 204 ==> storeMutations == old(storeMutations) + 1 && lastStoreErr == nil && lastStoreOp == "extend"
+//@   ensures [C04:conflict_is_409] old(respStatus) == 0 && storeMutations == old(storeMutations) + 1 && leaseConflict(lastStoreErr) ==> respStatus == 409
 //@   ensures [C04:always_answers] respStatus != 0
